@@ -273,6 +273,7 @@ func cmdCheck(args []string) int {
 	var reports []*OblReport
 	violations := 0
 	knownHits := 0
+	var knownNames []string
 	discharged := 0
 	solverTime := map[string]float64{}
 	solverWins := map[string]int{}
@@ -293,6 +294,7 @@ func cmdCheck(args []string) int {
 		if kf := isKnown(rep.Name); kf != nil {
 			rep.Status = "known-finding"
 			knownHits++
+			knownNames = append(knownNames, rep.Name)
 			outLines = append(outLines, fmt.Sprintf("KNOWN-FINDING: property=%s %s (%s)", *prop, kf.What, rep.Name))
 			continue
 		}
@@ -389,9 +391,13 @@ func cmdCheck(args []string) int {
 		"wall_s":      wall,
 		"violations":  violations,
 		"coverage": map[string]interface{}{
-			"obligations":              len(works),
+			// obligations subject to proof in this run; obligations that fail exactly as a recorded
+			// known finding are listed separately below and are not counted as proved
+			"obligations":              len(works) - knownHits,
 			"discharged":               discharged,
+			"obligations_total":        len(works),
 			"known_findings_hit":       knownHits,
+			"known_finding_obligations": knownNames,
 			"checker_cmd":              "govc check -prop " + *prop + " -tier " + *tier,
 			"trusted_base":             trusted,
 			"functions_under_contract": funcs,
